@@ -218,7 +218,7 @@ func runC17(c *Ctx) {
 					h = fmt.Sprintf("%d.%d.%d.%d", r.Intn(300), r.Intn(256), r.Intn(256), r.Intn(256))
 				case 1:
 					parts := []string{}
-					for k := 0; k < 2+r.Intn(8); k++ {
+					for k, nn := 0, 2+r.Intn(8); k < nn; k++ {
 						parts = append(parts, fmt.Sprintf("%x", r.Intn(1<<uint(4+r.Intn(16)))))
 					}
 					h = strings.Join(parts, ":")
@@ -248,7 +248,7 @@ func runC17(c *Ctx) {
 		if r.Intn(3) == 0 {
 			add("i", fixedValue(r, []int{0, 15, 16, 17, 24}[r.Intn(5)]))
 		}
-		for k := 0; k < r.Intn(3); k++ {
+		for k, nn := 0, r.Intn(3); k < nn; k++ {
 			add(decoys[r.Intn(len(decoys))], r.Bytes(r.Intn(6)))
 		}
 		if r.Bool() { // random wire order
